@@ -23,6 +23,7 @@ type negCall struct {
 	Kind   int
 	Header string // value of the call's own request header at the time of the call ("" = absent)
 	Offers []string
+	G      bool `json:",omitempty"` // generated from the grammatical pools only (statistics)
 }
 
 type negCase struct{ Calls []negCall }
@@ -172,9 +173,9 @@ func genParams(r *hx.Rand, clean bool) string {
 	}
 }
 
-func genNegHeader(r *hx.Rand, kind int) string {
+func genNegHeader(r *hx.Rand, kind int) (string, bool) {
 	if r.Chance(1, 12) {
-		return ""
+		return "", true
 	}
 	clean := r.Chance(3, 5)
 	pool := mediaRanges
@@ -212,15 +213,16 @@ func genNegHeader(r *hx.Rand, kind int) string {
 	if r.Chance(1, 10) {
 		b.WriteString(hx.Pick(r, []string{" ", ",", "\t", ", "}))
 	}
-	return b.String()
+	return b.String(), clean
 }
 
-func genOffers(r *hx.Rand, kind int) []string {
+func genOffers(r *hx.Rand, kind int) ([]string, bool) {
 	pool := mediaOffers
 	if kind != kAccept {
 		pool = tokOffers[kind]
 	}
-	if r.Chance(3, 4) {
+	valid := r.Chance(3, 4)
+	if valid {
 		pool = mediaOffersValid
 		if kind != kAccept {
 			pool = tokOffersValid[kind]
@@ -234,7 +236,7 @@ func genOffers(r *hx.Rand, kind int) []string {
 	for i := range out {
 		out[i] = hx.Pick(r, pool)
 	}
-	return out
+	return out, valid
 }
 
 func genNeg(r *hx.Rand) *negCase {
@@ -242,9 +244,10 @@ func genNeg(r *hx.Rand) *negCase {
 	// the request carries one value per header; a call may change its header first (1 in 8)
 	var cur [4]string
 	var offers [4][]string
+	var gh, go_ [4]bool
 	for k := 0; k < 4; k++ {
-		cur[k] = genNegHeader(r, k)
-		offers[k] = genOffers(r, k)
+		cur[k], gh[k] = genNegHeader(r, k)
+		offers[k], go_[k] = genOffers(r, k)
 	}
 	k := &negCase{}
 	for i := 0; i < n; i++ {
@@ -253,12 +256,12 @@ func genNeg(r *hx.Rand) *negCase {
 			kind = kAccept // the cached path
 		}
 		if r.Chance(1, 8) {
-			cur[kind] = genNegHeader(r, kind)
+			cur[kind], gh[kind] = genNegHeader(r, kind)
 		}
 		if r.Chance(1, 4) {
-			offers[kind] = genOffers(r, kind)
+			offers[kind], go_[kind] = genOffers(r, kind)
 		}
-		k.Calls = append(k.Calls, negCall{kind, cur[kind], offers[kind]})
+		k.Calls = append(k.Calls, negCall{kind, cur[kind], offers[kind], gh[kind] && go_[kind]})
 	}
 	return k
 }
@@ -364,7 +367,17 @@ func emitNeg(id string, k *negCase, st *hx.Stats) string {
 		if changed {
 			st.Count("N_history_dependent")
 		}
+		prev := map[string]bool{}
 		for _, c := range k.Calls {
+			st.Count("N_call")
+			if c.G {
+				st.Count("N_call_grammatical_header_and_offers")
+			}
+			key := strconv.Itoa(c.Kind) + "|" + c.Header
+			if c.Kind == kAccept && prev[key] {
+				st.Count("N_call_accept_cache_hit")
+			}
+			prev[key] = true
 			st.Count("N_kind_" + strconv.Itoa(c.Kind))
 			if strings.Count(c.Header, ",") >= 15 {
 				st.Count("N_header_ge16")
